@@ -15,6 +15,7 @@ Together: **`generated_runs_model`**.  The C16 theorems are transferred to the g
 -/
 import AioMySensors.Generated.LifecycleBodies
 import AioMySensors.Lemmas.Lifecycle
+import AioMySensors.Lemmas.LifecycleEnter
 
 namespace AioMySensors.LL
 open AioMySensors AioMySensors.Lifecycle
@@ -513,7 +514,39 @@ theorem connect_failure_leaves_nothing_generated (κ : Classes) (f : Faults) (t 
     · exact h
     · exact absurd h.1 (by simp [hfs])
 
+/-- **C16's `load_failure_touches_nothing`, about the generated text** - for every class of the load's failure.
+`κ.load = true` is the case the model of `Model/Lifecycle.lean` does not distinguish: the failure is cancellation-like
+(the task running `__aenter__` is cancelled while it is inside `load`: a start-up timeout, Ctrl-C).  Whatever the class,
+and at every moment of every schedule, the machine interpreting the skeleton translated from `__aenter__` has created no
+saver, begun no save, performed no final save, and the file holds what it held.  An `__aenter__` whose clean-up handler
+(`persistence.stop()`: "save a final time") also covers the load does not have this tree: `main_tree_same` fails, and
+the correspondence run (harness/props/enterfail.py) shows the overwritten file. -/
+theorem load_failure_touches_nothing_generated (κ : Classes) (f : Faults) (t v : Nat) (cs : List Choice)
+    (hl : f.loadFails = true) :
+    let s := (runL κ (genInit f t v) cs).sys
+    s.file = .holds v ∧ s.saver = .absent ∧ s.started = false ∧ s.saveStarts = [] ∧ s.finalSaveDone = false ∧
+    s.entered = false ∧ s.disconnectTried = false ∧
+    (s.main = .finished → s.outcome = some .loadErr) := by
+  intro s
+  have hs : s = hide (run (init f t v) cs) := generated_runs_model κ f t v cs
+  have hf : (run (init f t v) cs).faults = f := faults_run _ cs
+  have hi : LoadFailInv v (run (init f t v) cs) := loadFail_run v _ cs (loadFail_init f t v)
+  obtain ⟨hm, hsv, _, hfile, hss, hfd, hst, _, hen, hdt, _⟩ := hi (by rw [hf]; exact hl)
+  rw [hs]
+  refine ⟨hfile, hsv, hst, hss, hfd, hen, hdt, fun hfin => ?_⟩
+  rcases hm with ⟨h, _⟩ | ⟨_, h⟩
+  · have : (run (init f t v) cs).main = .finished := hfin
+    rw [h] at this; cases this
+  · exact h
+
 /-! ### Non-vacuity: the generated machine runs -/
+
+/-- The task entering the context is cancelled inside `load` (file version 7): the statement ends with that failure, no
+saver exists, nothing was saved, the file still holds version 7. -/
+example :
+    let s := (runL { load := true } (genInit { loadFails := true } 0 7) [.main, .saver true, .tick 5, .main]).sys
+    s.main = .finished ∧ s.saver = .absent ∧ s.file = .holds 7 ∧ s.finalSaveDone = false ∧ s.outcome = some .loadErr := by
+  decide
 
 /-- The task entering the context is cancelled inside `connect` while the saver is in the `write` of its first save:
 the generated handler stops the saver, saves a final time, and the cancellation (reported as the connect step's
